@@ -666,6 +666,7 @@ impl UdpNet {
             faults: DgramFaults::default(),
             send_error_next: Arc::new(Mutex::new(0)),
             spurious: Arc::new(Mutex::new((false, false))),
+            send_stall: Arc::new(Mutex::new(SendStall::default())),
         }
     }
 
@@ -723,9 +724,32 @@ pub struct DgSock {
     /// (enabled, the next try_recv reports WouldBlock): false-positive
     /// readiness, which the `AsyncDgramSock` contract allows.
     spurious: Arc<Mutex<(bool, bool)>>,
+    /// Server-side send back-pressure: with `send_stall.0` per mille a
+    /// `poll_send_to` first stays pending for one of the given durations.
+    send_stall: Arc<Mutex<SendStall>>,
+}
+
+/// Back-pressure on the server's datagram socket.
+#[derive(Default)]
+pub struct SendStall {
+    pub per_mille: u64,
+    pub durations_ms: Vec<u64>,
+    /// Sends in progress: (destination, message id) -> ready at (virtual ns).
+    in_progress: BTreeMap<(SocketAddr, u16), u64>,
+    /// Every stalled send: (destination, message id, stalled for ms).
+    pub log: Vec<(SocketAddr, u16, u64)>,
 }
 
 impl DgSock {
+    /// Make some sends through the server-side socket trait stall.
+    pub fn stall_sends(&self, per_mille: u64, durations_ms: Vec<u64>) {
+        let mut g = self.send_stall.lock().unwrap();
+        g.per_mille = per_mille;
+        g.durations_ms = durations_ms;
+    }
+    pub fn stalled_sends(&self) -> Vec<(SocketAddr, u16, u64)> {
+        self.send_stall.lock().unwrap().log.clone()
+    }
     /// Let `readable()` report readiness falsely now and then.
     pub fn spurious_readiness(&self, on: bool) {
         self.spurious.lock().unwrap().0 = on;
@@ -854,7 +878,38 @@ impl domain::net::client::protocol::AsyncDgramSend for DgSock {
 }
 
 impl domain::net::server::sock::AsyncDgramSock for DgSock {
-    fn poll_send_to(&self, _cx: &mut Context<'_>, data: &[u8], dest: &SocketAddr) -> Poll<io::Result<usize>> {
+    fn poll_send_to(&self, cx: &mut Context<'_>, data: &[u8], dest: &SocketAddr) -> Poll<io::Result<usize>> {
+        let id = if data.len() >= 2 { u16::from_be_bytes([data[0], data[1]]) } else { 0 };
+        let key = (*dest, id);
+        let mut g = self.send_stall.lock().unwrap();
+        sim::sync_clock();
+        let now = sim::now_ns();
+        if let Some(until) = g.in_progress.get(&key).copied() {
+            if now < until {
+                let w = cx.waker().clone();
+                let ms = (until - now).div_ceil(1_000_000);
+                tokio::spawn(async move {
+                    tokio::time::sleep(Duration::from_millis(ms)).await;
+                    w.wake();
+                });
+                return Poll::Pending;
+            }
+            g.in_progress.remove(&key);
+        } else if g.per_mille > 0 && !g.durations_ms.is_empty() && sim::chance("net.dg.send_stall", g.per_mille, 1000) {
+            let i = sim::draw("net.dg.send_stall_ms", g.durations_ms.len() as u64) as usize;
+            let ms = g.durations_ms[i];
+            sim::stat("fault.dgram_send_backpressure");
+            ev!("net dgram send to {} id={} stalls for {} ms", dest, id, ms);
+            g.in_progress.insert(key, now + ms * 1_000_000);
+            g.log.push((*dest, id, ms));
+            let w = cx.waker().clone();
+            tokio::spawn(async move {
+                tokio::time::sleep(Duration::from_millis(ms)).await;
+                w.wake();
+            });
+            return Poll::Pending;
+        }
+        drop(g);
         Poll::Ready(self.send_net(*dest, data))
     }
 
